@@ -17,7 +17,10 @@ RULE = ('Per function of the property: admissible parameter vectors drawn from m
         'log-uniform magnitudes (1e-2..1e3), lead times 0..4, plus a guard-violating stream (zero/negative/contradictory arguments); '
         'each case = one parameter vector with its optimise call, evaluate-at-optimum call, 20-40 alternative decisions near '
         '(1e-6..1e-2 relative) and far (x0.001..x1000 / all integers / quantile grid) from the optimum, an independent '
-        'quadrature/summation of the defining expectation, and random evaluation-mode decisions. non-trivial = valid parameters '
+        'quadrature/summation of the defining expectation, and random evaluation-mode decisions. For the exact EOQ with disruptions also the two '
+        'regimes in which the exact optimum is far from the approximate one that centres its search: small fixed cost with holding cost above '
+        'stockout cost (optimum below), and stockout cost 1e-3.5..1e-1.2 with recovery rate 0.02..0.5 (optimum above, more than 10x in about '
+        'half of the cases). non-trivial = valid parameters '
         'with a strictly positive optimal cost and at least one alternative strictly worse; distinct = distinct (function, parameters).')
 
 C10_TRANSLATED = [q for q in py2v.EXPECTED]
@@ -270,7 +273,7 @@ def eoqd_expect(Q, K, h, p, lam, a, b):
     return exp_cost / exp_len
 
 
-def o_eoqd(o, rng, approximate):
+def o_eoqd(o, rng, approximate, cheap_stockouts=False):
     su = imp('supply_uncertainty')
     K, h, p, lam = pos(rng), cost(rng), cost(rng), pos(rng)
     a = pos(rng, -2, 1); b = pos(rng, -1, 2)
@@ -278,6 +281,11 @@ def o_eoqd(o, rng, approximate):
         a = rng.uniform(0.1, 3); b = rng.uniform(2, 30)
     if not approximate and rng.random() < .2:              # small fixed cost, holding cost above stockout cost: the approximation is poor
         K = rng.uniform(0.01, 0.2); h = p * rng.uniform(2, 6); a = rng.uniform(0.05, 0.5); b = rng.uniform(1, 4)
+    if cheap_stockouts:
+        # stockouts much cheaper than holding and slow recovery: it pays to order rarely and ride out the disruptions, the exact optimum lies far
+        # ABOVE the approximate one (more than 10x -- beyond the initial search interval [Q~/10, 10 Q~] -- in about half of these cases)
+        K = rng.choice([10 ** rng.uniform(-2, 2), rng.uniform(.05, 500)]); h = cost(rng); lam = 10 ** rng.uniform(-1, 3)
+        p = 10 ** rng.uniform(-3.5, -1.2); a = rng.uniform(.2, 3); b = 10 ** rng.uniform(-1.7, -.3)
     name = 'eoq_with_disruptions(approximate=%s)' % approximate
     case = dict(function='eoq_with_disruptions', fixed_cost=K, holding_cost=h, stockout_cost=p, demand_rate=lam, disruption_rate=a, recovery_rate=b, approximate=approximate)
     r = o.call(name, su.eoq_with_disruptions, case, K, h, p, lam, a, b, approximate)
@@ -297,6 +305,7 @@ def o_eoqd(o, rng, approximate):
         grid = list(np.geomspace(Qa / 1000, Qa * 1000, 241)) + [float(Q)]
         gv = [g(y) for y in grid]
         k = int(np.argmin(gv))
+        o.count('eoq_with_disruptions_exact:optimum/approximate ' + ('<0.1' if grid[k] < Qa / 10 else '>10' if grid[k] > Qa * 10 else '0.1..10'))
         lo_b, hi_b = grid[max(k - 1, 0)] if k < 241 else Q / 2, grid[min(k + 1, 240)] if k < 241 else Q * 2
         res = optimize.minimize_scalar(g, bounds=(lo_b, hi_b), method='bounded', options=dict(xatol=1e-13 * max(1.0, Q)))
         c_true = min(float(res.fun), gv[k], float(c)); q_true = float(res.x) if float(res.fun) <= gv[k] else grid[k]
@@ -686,6 +695,7 @@ def o_far_continuous(o, rng):
 ORACLES = [
     ('economic_order_quantity', o_eoq, 1.0), ('economic_order_quantity_with_backorders', o_eoqb, 1.0), ('economic_production_quantity', o_epq, 1.0),
     ('eoq_with_disruptions_exact', lambda o, r: o_eoqd(o, r, False), 0.6), ('eoq_with_disruptions_approx', lambda o, r: o_eoqd(o, r, True), 1.0),
+    ('eoq_with_disruptions_exact_cheap_stockouts', lambda o, r: o_eoqd(o, r, False, True), 0.3),
     ('eoq_with_additive_yield_uncertainty', lambda o, r: o_yield_eoq(o, r, True), 0.6), ('eoq_with_multiplicative_yield_uncertainty', lambda o, r: o_yield_eoq(o, r, False), 0.6),
     ('newsvendor_normal(+_cost)', o_nv_normal, 0.6), ('newsvendor_poisson(+_cost)', o_nv_poisson, 0.6), ('newsvendor_continuous', o_nv_continuous, 0.2),
     ('newsvendor_discrete', None, 3.0), ('myopic(+_cost)', o_myopic, 0.6),
